@@ -4,6 +4,7 @@ import TxdbusModel.Route.Rule
 import TxdbusModel.Route.Router
 import TxdbusModel.Route.Text
 import TxdbusModel.Route.Client
+import TxdbusModel.Route.Daemon
 import TxdbusModel.Route.Proxy
 /-!
 Driver for property C12: line protocol over the match-rule models.
@@ -39,6 +40,13 @@ Lines (one output line each)
   psub <id>                     -> ok                                     (on_ok: _signalRules.add)
   pcancel <id>                  -> del <id> | noop                        (cancelSignalNotification)
   meaning <text>                -> none | `;`-separated constraints       (Spec.ruleTextMeaning)
+  dreset                        -> ok                                     (fresh client + SPEC daemon, Route/Daemon.lean)
+  dadd <cb> <rule>              -> sentadd <text>                         (the text also reaches the daemon)
+  ddel <id>                     -> sentremove <text> | keyerror
+  ddeliver <k>                  -> adddone <id> | addfailed | deldone | delfailed | failed | ignored
+                                                                          (the daemon's reply to the k-th call reaches the client)
+  dsig <raises> <msg>           -> notforwarded | inv=... log=<n>         (broadcast signal: daemon, then local router)
+  dstate                        -> bus=<texts> local=<texts> pending=<n>  (`.` or `;`-separated hex texts, unsorted)
 -/
 open Txdbus.Route
 
@@ -183,11 +191,55 @@ structure St where
   client : Client := {}
   sels : List (Option (Str × Str)) := []
   subs : ProxySubs := {}
+  sys : System := {}
 
 def T : Tables := Tables.gen
 
+def showCObs : CObs → String
+  | .sentAdd text => "sentadd " ++ Driver.charsToHex text
+  | .sentRemove text => "sentremove " ++ Driver.charsToHex text
+  | .keyError => "keyerror"
+  | .addDone i => "adddone " ++ toString i
+  | .addFailed => "addfailed"
+  | .delDone => "deldone"
+  | .delFailed => "delfailed"
+  | .failed => "failed"
+  | .ignored => "ignored"
+  | .routed r => showRouted r
+
+def showSObs : SObs → String
+  | .client o => showCObs o
+  | .notForwarded => "notforwarded"
+
+def showTexts (l : List Str) : String :=
+  if l.isEmpty then "." else ";".intercalate (l.map Driver.charsToHex)
+
+def sysStep (st : St) (raises : Nat → Cb → Bool) (op : SOp) : St × String :=
+  let so := st.sys.step T Spec.textIsRule raises op
+  ({ st with sys := so.1 }, showSObs so.2)
+
 def step (st : St) (line : String) : St × String :=
   match Driver.words line with
+  | ["dreset"] => ({ st with sys := {} }, "ok")
+  | ["dstate"] =>
+    (st, "bus=" ++ showTexts st.sys.daemon.rules ++ " local=" ++ showTexts st.sys.client.localTexts
+      ++ " pending=" ++ toString (st.sys.client.calls.filter (fun p => p.isSome)).length)
+  | "dadd" :: cb :: rest =>
+    match cb.toNat?, rule? rest with
+    | some cb, some (a, []) => sysStep st (fun _ _ => false) (.addMatch cb a)
+    | _, _ => (st, "badinput")
+  | ["ddel", id] =>
+    match id.toNat? with
+    | some id => sysStep st (fun _ _ => false) (.delMatch id)
+    | none => (st, "badinput")
+  | ["ddeliver", k] =>
+    match k.toNat? with
+    | some k => sysStep st (fun _ _ => false) (.deliver k)
+    | none => (st, "badinput")
+  | "dsig" :: rs :: rest =>
+    match raises? rs, msg? rest with
+    | some raises, some (m, []) => sysStep st raises (.signal m)
+    | _, _ => (st, "badinput")
   | "match" :: rest =>
     match rule? rest with
     | some (a, rest) =>
